@@ -117,6 +117,13 @@ def run(ctx):
         prod_days = np.nonzero(gas > 0)[0]
         pres[rng.choice(prod_days[1:], 2, replace=False)] = np.nan   # gauge down on producing days too
         prod = pd.DataFrame({"Days": np.arange(nd) * 1.0, "Gas": gas, "Pressure": pres, "Other": 1.0})
+        # row labels are whatever the caller's table carries: 0..n-1, repeated (two exports joined without renumbering: shut-in days of
+        # one share their label with producing days of the other), or in another order; the rows decide, not their labels
+        labels = ["0..n-1", "repeated (two exports joined)", "reversed"][((k + 1) // 2) % 3]
+        if labels.startswith("repeated"):
+            prod.index = np.arange(nd) % (nd // 2 + 1)
+        elif labels == "reversed":
+            prod.index = np.arange(nd)[::-1]
         filt = bool(k % 2 == 0)
         if not filt:
             prod["Pressure"] = prod["Pressure"].fillna(1500.0)
@@ -144,7 +151,7 @@ def run(ctx):
         nk = len(kept)
         fit = {nm: float(result.params[nm].value) for nm in ("tau", "M", "p_initial")}
         lim = dict(tau=(30.0, 2.0 * (nk - 1)), M=(float(cum[nk - 2]), inplace_max), p_initial=(float(np.max(pfk)), p_imax))
-        inp = dict(days=nd, kept=nk, filter=filt, window=window, n_iter=budget, limits=lim)
+        inp = dict(days=nd, kept=nk, filter=filt, window=window, n_iter=budget, limits=lim, row_labels=labels)
         for nm in fit:
             lo, hi = lim[nm]
             dlo, dhi = float(result.params[nm].min), float(result.params[nm].max)
